@@ -11,7 +11,7 @@ import z3
 
 from pyvc import extract as X
 from pyvc import pysem as S
-from pyvc.contract import Contract, KCustom
+from pyvc.contract import Contract, KCustom, KStr
 from contracts.regalloc_c import search_colors
 from pyvc.loops import LoopSpec
 from pyvc.state import fresh
@@ -237,23 +237,24 @@ def body_fun(eng):
     f, loop = _symbol_body()
     once = ast.For(target=ast.Name(id="_once", ctx=ast.Store()), iter=ast.Tuple(elts=[ast.Constant(value=0)], ctx=ast.Load()), body=list(loop.body), orelse=[], lineno=loop.lineno, col_offset=0)
     ret = ast.parse("return (sym.code_expr, mapping, used_registers, blocked_registers)").body
-    fn = X.as_function("assign_registers__for_sym_body", ["sym", "mapping", "available_registers", "used_registers", "blocked_registers"], [once] + ret)
+    # `scope` and `module_names` are in scope at this point of the real function (not read by the loop body today)
+    fn = X.as_function("assign_registers__for_sym_body", ["sym", "mapping", "available_registers", "used_registers", "blocked_registers", "scope", "module_names"], [once] + ret)
     return X.vfun(fn, "register_assignment.assign_registers@for-sym")
 
 
-def body_pre(sym, mapping, available_registers, used_registers, blocked_registers):
+def body_pre(sym, mapping, available_registers, used_registers, blocked_registers, scope, module_names):
     a = available_registers
     return (sym._color >= -1 and len(a) <= 16 and all(0 <= a[i] and a[i] < 16 for i in range(len(a)))
             and all(a[i] < a[i + 1] for i in range(len(a) - 1)))
 
 
-def body_post_mapped_symbol_keeps_mapping(sym, mapping, available_registers, used_registers, blocked_registers, result):
+def body_post_mapped_symbol_keeps_mapping(sym, mapping, available_registers, used_registers, blocked_registers, scope, module_names, result):
     name0, color, was_mapped, old_text = sym.ghost_name, sym._color, sym.ghost_was_mapped, sym.ghost_old_text
     text, m2, used2, blocked2 = result
     return (not was_mapped) or text == old_text
 
 
-def body_post_colour_is_the_cth_free_register(sym, mapping, available_registers, used_registers, blocked_registers, result):
+def body_post_colour_is_the_cth_free_register(sym, mapping, available_registers, used_registers, blocked_registers, scope, module_names, result):
     name0, color, was_mapped = sym.ghost_name, sym._color, sym.ghost_was_mapped
     text, m2, used2, blocked2 = result
     reg = available_registers[color] if (not was_mapped) else 0
@@ -261,11 +262,11 @@ def body_post_colour_is_the_cth_free_register(sym, mapping, available_registers,
                           and text == "r" + str(reg) and name0 in m2 and m2[name0] == text and reg in used2 and reg in blocked2)
 
 
-def body_raises_out_of_registers(sym, mapping, available_registers, used_registers, blocked_registers):
+def body_raises_out_of_registers(sym, mapping, available_registers, used_registers, blocked_registers, scope, module_names):
     return (not sym.ghost_was_mapped) and sym._color >= len(available_registers)
 
 
-def body_raises_uncoloured(sym, mapping, available_registers, used_registers, blocked_registers):
+def body_raises_uncoloured(sym, mapping, available_registers, used_registers, blocked_registers, scope, module_names):
     return (not sym.ghost_was_mapped) and sym._color == -1
 
 
@@ -273,6 +274,23 @@ def native_body_search(clause):
     """whole assign path, natively: programs with more simultaneously live values than registers must end in the error"""
     from stationeers_pytrapic.compiler import compile_code
 
+    # statistics of programs whose registers partly belong to library top-level code (every allocated register is counted)
+    from bounded import genmod
+    from bounded import harness as H
+    from bounded.props import check_stats
+
+    hl = "from stationeers_pytrapic.symbols import *\n"
+    libs = [({"": hl + "from library import calib\nlevel = 0\nwhile True:\n    level = calib.corrected(d1.Setting)\n    db.Setting = level\n    yield_()\n",
+              "calib": hl + "offset = (d0.Temperature - 273.15) * d0.Pressure + d0.RatioOxygen * 100\ndef corrected(v):\n    return v - offset\n"})]
+    libs += [(genmod.generate_state_only(s_)[0]) for s_ in range(40)]
+    for srcs in libs:
+        srcs = srcs[0] if isinstance(srcs, tuple) else srcs
+        for opts in ({"append_version": False}, {"append_version": False, "inline_functions": False}):
+            res = H.compile_program(srcs, opts)
+            if "code" in res:
+                f_ = [x for x in check_stats(res) if "num_registers" in x]
+                if f_:
+                    return {"sources": srcs, "options": opts}, f_[0]
     for n in (15, 16, 17, 20):
         src = "from stationeers_pytrapic.symbols import *\n" + "".join(f"v{i} = d0.Setting + {i}\n" for i in range(n)) + "while True:\n" + "".join(f"    v{i} = v{i} + d0.On\n" for i in range(n)) + "    db.Setting = " + " + ".join(f"v{i}" for i in range(n)) + "\n    yield_()\n"
         try:
@@ -310,6 +328,26 @@ def symbol_body_contract():
     def mk_set(st, pname):
         return VSet(st.alloc({"__sym__": SymIntSet.fresh(st, pname)}))
 
+    def mk_names(st, pname):
+        from pyvc.ulist import STRS
+
+        class AnyNames:
+            """a set of strings with arbitrary content: membership is an uninterpreted predicate"""
+            mem = z3.Function("in_module_names", STRS, z3.BoolSort())
+
+            def contains(self, eng, st, item, origin):
+                from pyvc import pysem as S
+
+                return [(st, self.mem(S.to_str_term(item)))]
+
+            def method(self, eng, st, recv, name, args, kwargs, origin):
+                raise Unsupported(f"method {name} on module_names")
+
+            def length(self, st):
+                raise Unsupported("len(module_names)")
+
+        return VSet(st.alloc({"__sym__": AnyNames()}))
+
     def setup(eng, st, args):
         # ghost fields of the symbol: whether its virtual name was mapped on entry, and to what
         sym, m = args["sym"], st.store[args["mapping"].oid]["__sym__"]
@@ -320,7 +358,8 @@ def symbol_body_contract():
     c = Contract(name="register_assignment.assign_registers@for-sym", fun=body_fun,
                  params=[("sym", [KCustom("symbol: any virtual name, any colour", mk_sym, lambda m, v: None)]), ("mapping", [KCustom("mapping: any", mk_map, lambda m, v: None)]),
                          ("available_registers", [KCustom("free registers: increasing, within r0-r15", mk_avail, lambda m, v: None)]),
-                         ("used_registers", [KCustom("set", mk_set, lambda m, v: None)]), ("blocked_registers", [KCustom("set", mk_set, lambda m, v: None)])],
+                         ("used_registers", [KCustom("set", mk_set, lambda m, v: None)]), ("blocked_registers", [KCustom("set", mk_set, lambda m, v: None)]),
+                         ("scope", [KStr()]), ("module_names", [KCustom("set of names: any", mk_names, lambda m, v: None)])],
                  pre=body_pre, post={"mapped_symbol_keeps_its_register": body_post_mapped_symbol_keeps_mapping, "colour_c_is_the_cth_free_register_r0_to_r15": body_post_colour_is_the_cth_free_register},
                  raises={"CompilerError": body_raises_out_of_registers, "RuntimeError": body_raises_uncoloured}, world={"CompilerError": VType("CompilerError"), "RuntimeError": VType("RuntimeError")},
                  setup=setup, search=native_body_search, timeout=60.0,
